@@ -21,3 +21,5 @@ open BsVerif.Call
 #print axioms C16_no_leak_partial
 #print axioms C16_no_leak_counterexample
 #print axioms C16_breakpoints_reenabled_counterexample
+#print axioms C16_callee_runs_original_code_counterexample
+#print axioms C16_reentrant_call_witness
